@@ -14,6 +14,7 @@ import (
 
 	"github.com/bloxapp/ssv/protocol/v2/ssv/queue"
 	ssvtypes "github.com/bloxapp/ssv/protocol/v2/types"
+	"github.com/bloxapp/ssv/zzverif/vsched"
 	"github.com/bloxapp/ssv/zzverif/vtime"
 
 	"verifharness/lib/ev"
@@ -109,6 +110,7 @@ type op struct {
 	kind string // push trypush trypop pop popcancel advance
 	k    int    // message kind
 	p, f int
+	c    int // popcancel: index of the ready select case taken
 }
 
 func (o op) String() string {
@@ -117,6 +119,9 @@ func (o op) String() string {
 		return fmt.Sprintf("%s(%s)", o.kind, kindNames[o.k])
 	case "advance":
 		return "advance(2ms)"
+	}
+	if o.kind == "popcancel" {
+		return fmt.Sprintf("%s(%s,%s,case%d)", o.kind, prioNames[o.p], filters[o.f].name, o.c)
 	}
 	return fmt.Sprintf("%s(%s,%s)", o.kind, prioNames[o.p], filters[o.f].name)
 }
@@ -195,10 +200,11 @@ func (e *explorer) ops(s state) []op {
 			if adm {
 				out = append(out, op{kind: "pop", p: p, f: f})
 			}
-			if len(s.inbox) == 0 {
-				// with an empty inbox only ctx.Done is ready in Pop's select: deterministic.
-				// (non-empty inbox + cancelled context is a real race; explored under the scheduler)
-				out = append(out, op{kind: "popcancel", p: p, f: f})
+			// cancelled context: with a non-empty inbox both select cases of Pop are ready; the
+			// scheduler makes the choice explicit (c = which ready case is taken at every select)
+			out = append(out, op{kind: "popcancel", p: p, f: f, c: 0})
+			if len(s.inbox) > 0 {
+				out = append(out, op{kind: "popcancel", p: p, f: f, c: 1})
 			}
 		}
 	}
@@ -227,56 +233,63 @@ func (e *explorer) apply(s state, o op) result {
 	var res result
 	expectRemoved := (*queue.DecodedSSVMessage)(nil)
 	var added *queue.DecodedSSVMessage
-	switch o.kind {
-	case "push":
-		added = mk(o.k)
-		l.kind[added] = o.k
-		l.q.Push(added)
-		res.label = "pushed"
-	case "trypush":
-		m := mk(o.k)
-		l.kind[m] = o.k
-		ok := l.q.TryPush(m)
-		full := len(s.inbox) >= e.capacity
-		if ok == full {
-			res.viol, res.what = "trypush-result", fmt.Sprintf("TryPush returned %v with inbox %d/%d", ok, len(s.inbox), e.capacity)
-		}
-		if ok {
-			added = m
-			res.label = "trypush-ok"
-		} else {
-			res.label = "trypush-full"
-		}
-	case "advance":
-		vtime.Advance(2 * time.Millisecond)
-		res.label = "advance"
-	case "trypop", "pop", "popcancel":
-		f := filters[o.f].f
-		var m *queue.DecodedSSVMessage
-		returned := true
+	// every op runs as the single managed goroutine of one scheduler execution: a blocked Pop
+	// shows up as "nothing enabled" instead of a hang, and select choices are explicit
+	var m *queue.DecodedSSVMessage
+	returned := true
+	isPop := false
+	x := vsched.Execute(func() {
 		switch o.kind {
+		case "push":
+			added = mk(o.k)
+			l.kind[added] = o.k
+			l.q.Push(added)
+			res.label = "pushed"
+		case "trypush":
+			nm := mk(o.k)
+			l.kind[nm] = o.k
+			ok := l.q.TryPush(nm)
+			full := len(s.inbox) >= e.capacity
+			if ok == full {
+				res.viol, res.what = "trypush-result", fmt.Sprintf("TryPush returned %v with inbox %d/%d", ok, len(s.inbox), e.capacity)
+			}
+			if ok {
+				added = nm
+				res.label = "trypush-ok"
+			} else {
+				res.label = "trypush-full"
+			}
+		case "advance":
+			vtime.Advance(2 * time.Millisecond)
+			res.label = "advance"
 		case "trypop":
-			m = l.q.TryPop(prios[o.p], f)
-		default:
+			isPop = true
+			m = l.q.TryPop(prios[o.p], filters[o.f].f)
+		case "pop", "popcancel":
+			isPop = true
 			ctx, cancel := context.WithCancel(context.Background())
+			defer cancel()
 			if o.kind == "popcancel" {
 				cancel()
 			}
-			done := make(chan *queue.DecodedSSVMessage, 1)
-			go func() { done <- l.q.Pop(ctx, prios[o.p], f) }()
-			select {
-			case m = <-done:
-			case <-time.After(10 * time.Second):
-				// hang detector, 7 orders of magnitude above the µs an honest Pop needs
-				returned = false
-				cancel()
-				m = <-done
-			}
-			cancel()
+			returned = false
+			m = l.q.Pop(ctx, prios[o.p], filters[o.f].f)
+			returned = true
 		}
+	}, func(p vsched.PointInfo) int {
+		if p.Kind == vsched.Choice && o.c < p.N {
+			return o.c
+		}
+		return 0
+	})
+	if x.Err != "" {
+		ev.Fatal("scheduler: %s (op %s in state %s)", x.Err, o, s.key())
+	}
+	if isPop {
+		f := filters[o.f].f
 		// scope = messages this pop has looked at: list, plus inbox if it was read
 		scope := all
-		if o.kind == "pop" && s.fresh && m != nil {
+		if (o.kind == "pop" || o.kind == "popcancel") && s.fresh && m != nil {
 			inList := false
 			for _, x := range l.list {
 				if x == m {
